@@ -100,6 +100,11 @@ CHECKS = {
          "The numeric estimators (KDE, NNLS, qvality spline) are not transcribed into TLA+: only their contract is specified. TLC enumerates the case shapes (algorithm x mixture class x tie class x permutation class x size class); inside each shape seeded numpy vectors (>= 50 targets and decoys, 100..1000 PSMs, 5000 thorough) are run through every selectable PEP and q-value algorithm, on the input and on its permuted version; TLC accepts iff one finite value per PSM in range, monotone in score, tie-equal, and aligned with its PSM whatever the input order; the PEP column of result files written by assign_confidence (qvality, kde_nnls) must be non-decreasing down the file and tie-equal.",
          "Trusted: TLC, quantisation at 1e-9; alignment tolerates up to 1 % of positions differing by more than 1e-3 (numeric noise of ill-conditioned NNLS tails is not a mis-alignment). Known findings F-06c/d/e (from_counts, estimate_pi0_by_slope).",
          "DESIGN.md §3 C06"),
+ "C12": ("model_checking",
+         "TLC model checking of ModelFit.tla (shuffle / un-shuffle index bookkeeping, label update by the C01 formula, iterations vs rows-and-labels-of-the-same-PSM and permutation/shuffle invariance) + TLC trace validation (ModelFitTrace.tla) of what a recording estimator received in the real Model.fit / predict for every TLC-enumerated small dataset",
+         "The training loop is model-checked for every small dataset, row permutation, shuffle switch and 1..3 iterations (the pre-fix unconditional un-shuffle and three seeded faults are rejected). TLC enumerates datasets (features, labels, permutation chosen by TLC and injected through a Generator subclass, shuffle, iterations), the driver runs the real Model.fit with a deterministic recording estimator and records every (row id, label) pair fed per iteration and the predictions for the original order, a row permutation, shuffle on/off, permuted feature columns and a save/load round trip; TLC recomputes the labels from the recorded scores with the C01 formula and accepts iff every fed pair belongs to one PSM with the right label, no unlabeled row is fed, and all variants predict alike.",
+         "Trusted: TLC, the recording estimator (public estimator API), integer scores. Real learners are compared at 1e-4.",
+         "DESIGN.md §3 C12"),
 }
 PENDING = {}   # id -> reason (not_applicable)
 
